@@ -105,3 +105,8 @@ def gen(rng, tier):
     for _ in range(n):
         bits = rng.choice(WIDTHS)
         yield '%s %d %x' % (rng.choice(OPS_ALL), bits, struct_value(rng, bits))
+
+
+def translate(repo, lean):
+    """(G) mode boundaries and prefix constants of the SCALE compact and alloy-rlp support code, re-extracted on every run"""
+    return translate_codec_tables(repo, lean)
